@@ -441,8 +441,9 @@ func scenarioKinds(sc scenarioT) map[string]bool {
 // the buffer is full, until the peer drains it, resets the connection, or the broker calls Close. A half-close by the
 // peer (it will send nothing more) does not release a blocked Write, as with TCP.
 type memConn struct {
-	limit          int // 0 = unbounded
-	blockedWriters int // Write calls currently waiting for room
+	wdeadline      time.Time // write deadline set by the broker (zero = none); only bounded connections can block
+	limit          int       // 0 = unbounded
+	blockedWriters int       // Write calls currently waiting for room
 	everBlocked    bool
 	mu             sync.Mutex
 	cond           *sync.Cond
@@ -486,6 +487,9 @@ func (c *memConn) Write(p []byte) (int, error) {
 	c.mu.Lock()
 	defer c.mu.Unlock()
 	for c.limit > 0 && len(c.out) >= c.limit && !c.brokerClosed && !c.peerReset {
+		if !c.wdeadline.IsZero() && !time.Now().Before(c.wdeadline) {
+			return 0, os.ErrDeadlineExceeded
+		}
 		c.blockedWriters++
 		c.everBlocked = true
 		c.cond.Wait()
@@ -510,11 +514,25 @@ func (c *memConn) Close() error {
 	return nil
 }
 
-func (c *memConn) LocalAddr() net.Addr                { return memAddr("broker") }
-func (c *memConn) RemoteAddr() net.Addr               { return memAddr("client") }
-func (c *memConn) SetDeadline(t time.Time) error      { return nil }
-func (c *memConn) SetReadDeadline(t time.Time) error  { return nil }
-func (c *memConn) SetWriteDeadline(t time.Time) error { return nil }
+func (c *memConn) LocalAddr() net.Addr               { return memAddr("broker") }
+func (c *memConn) RemoteAddr() net.Addr              { return memAddr("client") }
+func (c *memConn) SetReadDeadline(t time.Time) error { return nil } // reads are never cut short (all clients use keepalive 0)
+func (c *memConn) SetDeadline(t time.Time) error     { return c.SetWriteDeadline(t) }
+
+// SetWriteDeadline is honoured like a socket does: it also applies to a Write that is already blocked.
+func (c *memConn) SetWriteDeadline(t time.Time) error {
+	c.mu.Lock()
+	c.wdeadline = t
+	c.mu.Unlock()
+	if !t.IsZero() {
+		d := time.Until(t)
+		if d < 0 {
+			d = 0
+		}
+		time.AfterFunc(d+time.Millisecond, func() { c.mu.Lock(); c.cond.Broadcast(); c.mu.Unlock() })
+	}
+	return nil
+}
 
 func (c *memConn) send(b []byte) {
 	c.mu.Lock()
@@ -1262,7 +1280,7 @@ loop:
 				// reproduces something known (a nested read lock with a waiting writer cannot resolve itself)
 				earlyDone = true
 				if ws, d, still := stalled(last); still && len(ws) > 0 {
-					if sg, _ := stallSignature(ws); early[sg] {
+					if sg, _ := nameStall(sc, ws); early[sg] {
 						res.Waiters, res.Dump, res.Stall, res.StallAfterMs = ws, d, "lock-waiters", idle.Milliseconds()
 						break loop
 					}
